@@ -49,6 +49,11 @@ CHECKS = {
    text="RLP.tla defines Enc and the canonical decoder Dec; RLPStream.tla and RLPTyped.tla transcribe the lib/rlp Stream and the reflective decoders. TLC checks that Dec accepts exactly encodings and that the streaming/typed decoders accept exactly canonical encodings of the right shape and never request a buffer beyond the input limit, over: all strings of length <= 3/4 over an 18-byte boundary alphabet, trees with lengths 0..256 under every mutation class at every position (also stacked), headers claiming up to 2^64-1 bytes, boundary values of 31 Go schemas incl. the chain wire structs, all Stream call sequences of <= 6/10 calls. Every transition is executed on the real encoder, DecodeBytes/Decode/Stream/Split*/CountValues/iterator and the real Transaction/Receipt/BlockInfo/Log/StateAccount/Header (acceptance, value, canonical re-encode, hash, size, measured allocation, no panic); 2 000/20 000 random or damaged strings go through the real decoders and TLC must explain every outcome.",
    note="Partial: payloads above ~1 KB, Go types outside the 31 schemas and streams without an input limit are not covered; 'reference implementation' is read as RLP.tla's Enc (go-ethereum v1.9.15 only as a counted cross-check). Trusted: TLC, the driver's reflection mapping, keccak256.",
    ref="§4-C16"),
+ "C08": dict(
+   engine="statedb", category="model_checking", technique="TLA+ specs (StateDB.tla + SnapLayers.tla) model-checked by TLC; every transition replayed into the real kai/state.StateDB with and without a snapshot tree (with inserted reverted detours); TLC trace validation of seeded block-structured real runs",
+   text="StateDB.tla with SnapLayers.tla specifies every public mutator and getter of kai/state.StateDB and the snapshot tree's layers (balance/nonce/code/storage setters, Suicide, CreateAccount, refund, logs, preimages, access list, transient storage, Snapshot/Revert, Finalise, IntermediateRoot, Commit, Copy, state.New, StorageTrie). TLC checks revert-leaves-no-trace, copy independence, root = live content and reads-through-layers = committed content on complete graphs of one-account universes, depth-bounded two-account graphs and scripted multi-block prefixes. Every transition is replayed into the real StateDB in up to four snapshot-tree modes comparing every getter, the committed read-back (trie and snapshot paths) and a global content<->root bijection; seeded real runs (up to 4 accounts x 2 slots) are validated call by call by TLC.",
+   note="Trusted: TLC, the driver's value mapping, keccak collision-freedom, memorydb for the production store, single-goroutine use. Universes beyond 2 accounts x 2 slots are only sampled; prefetcher, SetStorage, snapshot generation/journal are not covered.",
+   ref="§4-C08"),
 }
 
 NOT_YET = {
